@@ -57,7 +57,8 @@ def run(tier, seed):
             if i % 5 == 3:
                 s.exp_origin = ["https://x.example", s.origin, "https://y.example"]
             s.n_inter = 0 if fmt == "fido-u2f" else i % 3
-            s.roots_mode = ("rp", "none", "several")[i % 3] if fmt in ("packed", "fido-u2f", "tpm") else "rp"
+            # RP policies under which the ceremony is valid: for the built-in-root formats the RP may add (unrelated) roots of its own
+            s.roots_mode = ("rp", "none", "several")[i % 3] if fmt in ("packed", "fido-u2f", "tpm") else (("rp", "extra-unrelated", "rp-only")[i % 3] if fmt in regsim.X5C_FORMATS else "rp")
             if fmt == "tpm":
                 s.k["tpm_name_alg"] = ("SHA256", "SHA1", "SHA384", "SHA512")[i % 4]
             pd, reg = regsim.build(s)
